@@ -79,7 +79,7 @@ def run(ctx):
                'flag-1 points bias the plant by 0.5 e^2/ln10 dex: recovery is compared with the reference fitter on the same data, and the reference with the analytic bound')
     # (the passive contracts of C05, C06, C09, C14, C20 ride along as extra observation points; which of the package's functions
     #  the pipeline goes through is not a required route)
-    ctx.require_events('text-row:objects-with-other-package-in-between', 'pipeline:run', 'recovered:rank1', 'text-row:checked')
+    ctx.require_events('text-row:objects-with-other-package-in-between', 'pipeline:run', 'recovered:rank1', 'text-row:checked', 'pipeline:band-added-after-listing')
     ctx.require_regimes('mode:2d', 'mode:3d', 'style:v1', 'style:v2', 'exact-plant', 'noisy-plant', 'av0:at-bound', 'av0:interior', 'sources-per-file>1', 'plant:with-unused-or-limit-band', '3d:distance-range-not-in-kpc', 'package:model-without-flux-in-a-band', 'conf:flag-not-lower-case')
     n_pipe = 10 if ctx.quick else 200
     ip = 0
@@ -349,6 +349,41 @@ def run(ctx):
                                   'is not the planted model\'s row of the parameter file', dict(wit1, line=rows2[:1], expected=[float(params[c_][m0]) for c_ in params]))
         except Exception as exc:
             ctx.raised(exc, 'pipeline:raised:objects:%s' % type(exc).__name__, 'the object-interface pipeline raised: %r' % (exc,), wit1)
+        # second round on the same per-file package, in the same process: one more filter is convolved *after* the fits and the
+        # listings above were made, then everything is fitted again with old and new bands together (the usual way a band is added
+        # to an existing analysis): the planted model must still come first with the reference chi^2
+        if style == 'v1' and mode == '2d':
+            fwx, respx, centralx, _ = convcheck.make_filter_arrays(rng, truth.wav, kind='inside')
+            fx = convcheck.build_filter('EX', fwx, respx, centralx, descending_nu=bool(rng.random() < 0.5))
+            kx = float(O.ext_pattern(lw, lc, np.array([fx.central_wavelength.to(u.micron).value]))[0])
+            convx = convcheck.reference_convolution(truth, fx)[0][:, 0]
+            m0, a0, s0 = p0['m0'], p0['a0'], p0['s0']
+            if np.all(convx[others] > 0):
+                with np.errstate(divide='ignore'):
+                    logm2 = np.concatenate([logm, np.log10(convx)[:, None]], axis=1)
+                k2 = np.concatenate([k, [kx]])
+                pred2 = logm2[m0] + a0 * k2 - 2 * s0
+                valid2 = np.array([4] * (nf + 1))
+                err2 = np.full(nf + 1, 0.02)
+                logf2, _, w2 = O.transform(valid2, pred2, err2)
+                a_k, s_k, c_k, _nl = reference_2d(logm2[others], k2, logf2, w2, lo, hi, valid=valid2, conf=err2)
+                o2 = np.argsort(c_k)
+                if others[int(o2[0])] == m0 and (len(o2) < 2 or c_k[o2[1]] - c_k[o2[0]] > 1e-2):
+                    wit2 = dict(wit1, added_filter_central=centralx, planted=(names[m0], a0, s0), flux=pred2)
+                    try:
+                        convolve_model_dir(md, [fx])
+                        fC = gen.make_fitter([f.name for f in filters] + ['EX'], np.ones(nf + 1), md, law, (lo, hi), dr, use_memmap=False)
+                        infoC = fC.fit(gen.build_source('again', valid2, pred2, err2))
+                        ctx.event('pipeline:band-added-after-listing')
+                        r1 = str(infoC.model_name[0]).strip()
+                        cref = float(c_k[o2[0]])
+                        if r1 != names[m0] or abs(float(infoC.chi2[0]) - cref) > 1e-6 * (1 + cref) + 1e-4:
+                            ctx.violation('recovery:after-band-added-to-listed-package',
+                                          'after a filter was convolved into a package that had already been fitted and listed, the planted model is '
+                                          'no longer recovered with the reference chi^2',
+                                          dict(wit2, rank1=r1, chi2_rank1=float(infoC.chi2[0]), chi2_reference=cref))
+                    except Exception as exc:
+                        ctx.raised(exc, 'pipeline:raised:band-added:%s' % type(exc).__name__, 'convolving one more filter and fitting again raised: %r' % (exc,), wit2)
         c09.CUR.update(params=None)
         ctx.rmdir(d)
     if ip < n_pipe // 2:
